@@ -102,7 +102,7 @@ class CT:
         return 'CT(%s)' % self.s
 
 
-SIZEOF = {'double': 8, 'float': 4, 'int': 4, 'long': 8, 'char': 1,
+SIZEOF = {'Py_buffer': 80, 'PyObject': 16, 'matrix': 80, 'double': 8, 'float': 4, 'int': 4, 'long': 8, 'char': 1,
           'short': 2, 'unsigned int': 4, 'unsigned long': 8, 'void': 1,
           'number': 16, 'double _Complex': 16, 'complex_t': 16,
           '_Complex double': 16, 'unsigned char': 1}
@@ -567,6 +567,22 @@ class Executor:
     def ev_ParenExpr(self, n, st):
         return self.ev(n['inner'][0], st)
 
+    def ev_StmtExpr(self, n, st):
+        """GNU statement expression ({ ...; value; })"""
+        body = n['inner'][0].get('inner', [])
+        if not body:
+            return Opaque('void')
+        for s_ in body[:-1]:
+            outs = self.exec_stmt1(s_, st)
+            if len(outs) != 1 or outs[0].kind != 'fall':
+                raise Unsupported('control flow inside statement expression')
+        last = body[-1]
+        if last.get('kind', '').endswith('Stmt') and last['kind'] not in (
+                'NullStmt',):
+            self.exec_stmt1(last, st)
+            return Opaque('void')
+        return self.ev(last, st)
+
     def ev_ConstantExpr(self, n, st):
         return self.ev(n['inner'][0], st)
 
@@ -679,6 +695,10 @@ class Executor:
             iv = toint(self.ev(i, st))
             if isinstance(p, ArrV):
                 return ('arr', p, iv)
+            if isinstance(p, TupleItems):
+                return ('tupleitem', p.obj, iv)
+            if isinstance(p, FieldArr):
+                return ('fieldarr', p.obj, p.name, iv)
             q = self.ptr_add(p, iv, st, n)
             return self.deref(q, n['ty'], st, n)
         if k == 'ImplicitCastExpr' and n.get('castKind') == 'NoOp':
@@ -704,6 +724,10 @@ class Executor:
                 return LObjField(o, name, ty, sp=True)
             if pt in ('PyObject', '_object'):
                 return LObjField(o, 'py.' + name, ty)
+            if pt == 'PyTupleObject' and name == 'ob_item':
+                return LObjField(o, 'ob_item', ty)
+            if pt == 'matrix' or True:
+                pass
         if isinstance(p, PtrV) and p.region is not None and p.region.kind in (
                 'local', 'malloc', 'struct'):
             return LField(LDeref(p, p.ty), name, ty)
@@ -737,11 +761,45 @@ class Executor:
                     extra={'region': r.name})
 
     def read(self, loc, st, n):
+        if isinstance(loc, tuple) and loc[0] == 'tupleitem':
+            _, o, iv = loc
+            i = z3.simplify(iv.t)
+            if not z3.is_int_value(i):
+                raise Unsupported('symbolic tuple index')
+            key = 'item%d' % i.as_long()
+            it = o.extra.get(key)
+            if it is None:
+                it = self.new_obj('%s[%d]' % (o.name, i.as_long()))
+                o.extra[key] = it
+            ln = o.extra.setdefault('tuplen', z3.Int('len(%s)' % o.name))
+            self.oblige(st, 'deref', ln > i.as_long(), n,
+                        text='tuple item %d exists' % i.as_long())
+            return PtrV(None, 0, 'PyObject', obj=it)
+        if isinstance(loc, tuple) and loc[0] == 'fieldarr':
+            _, o, nm, iv = loc
+            arr = st.ghost.get(('arrfield', o.name, nm)) or []
+            i = z3.simplify(iv.t)
+            if z3.is_int_value(i) and i.as_long() < len(arr):
+                return arr[i.as_long()]
+            return self.fresh_int('%s.%s' % (o.name, nm), 'long')
         if isinstance(loc, tuple) and loc[0] == 'arr':
             _, arr, iv = loc
             i = z3.simplify(iv.t)
             if z3.is_int_value(i) and 0 <= i.as_long() < len(arr.items):
                 return arr.items[i.as_long()]
+            if arr.items and all(isinstance(x, IntV) for x in arr.items):
+                self.oblige(st, 'deref', z3.And(iv.t >= 0, iv.t < len(
+                    arr.items)), n, text='index into %d-element table: %s'
+                    % (len(arr.items), cast_mod.src_of(self.tu, n)))
+                acc = arr.items[-1].t
+                for j in range(len(arr.items) - 2, -1, -1):
+                    acc = z3.If(iv.t == j, arr.items[j].t, acc)
+                return IntV(acc, arr.items[0].ty)
+            if arr.items:
+                self.oblige(st, 'deref', z3.And(iv.t >= 0, iv.t < len(
+                    arr.items)), n, text='index into %d-element table: %s'
+                    % (len(arr.items), cast_mod.src_of(self.tu, n)))
+                return Opaque('table entry')
             raise Unsupported('symbolic index into local array')
         if isinstance(loc, LVar):
             if loc.key in st.vars:
@@ -784,6 +842,9 @@ class Executor:
 
     def read_objfield(self, loc, st, n):
         o, f = loc.obj, loc.name
+        ov = st.ghost.get(('field', o.name, f, loc.sp))
+        if ov is not None:
+            return ov
         if not loc.sp:
             if f == 'nrows':
                 return IntV(o.nrows, 'int')
@@ -809,6 +870,10 @@ class Executor:
                 return IntV(o.sp_id, 'int')
             if f in ('colptr', 'rowind', 'values'):
                 return self.sp_array(o, f)
+        if f == 'ob_item':
+            return TupleItems(o)
+        if f in ('shape', 'strides') and not loc.sp:
+            return FieldArr(o, f)
         h = self.externs.get('field:' + f)
         if h:
             return h(self, st, o, n)
@@ -854,6 +919,17 @@ class Executor:
     def write(self, loc, v, st, n):
         if st.pure:
             raise Impure()
+        if isinstance(loc, tuple) and loc[0] == 'fieldarr':
+            _, o, nm, iv = loc
+            i = z3.simplify(iv.t)
+            if not z3.is_int_value(i) or not 0 <= i.as_long() < 2:
+                self.oblige(st, 'deref', z3.And(iv.t >= 0, iv.t < 2), n,
+                            text='index into %s->%s[2]' % (o.name, nm))
+                return
+            arr = list(st.ghost.get(('arrfield', o.name, nm)) or [None, None])
+            arr[i.as_long()] = toint(v)
+            st.ghost[('arrfield', o.name, nm)] = arr
+            return
         if isinstance(loc, tuple) and loc[0] == 'arr':
             _, arr, iv = loc
             i = z3.simplify(iv.t)
@@ -881,8 +957,12 @@ class Executor:
         if isinstance(loc, LObjField):
             h = self.externs.get('writefield')
             if h:
-                return h(self, st, loc, v, n)
-            raise Unsupported('write to object field %s' % loc.name)
+                h(self, st, loc, v, n)
+            st.ghost[('field', loc.obj.name, loc.name, loc.sp)] = v
+            st.stores.append((Region('objfield', '%s.%s' % (
+                loc.obj.name, loc.name), None, owner=loc.obj), 0, 0,
+                list(st.path()), n.get('line'), 'field'))
+            return
         if isinstance(loc, LDeref):
             p = loc.ptr
             sz = sizeof_type(loc.ty)
@@ -948,7 +1028,8 @@ class Executor:
                        z3.IntVal(8), owner=loc)
             return PtrV(r, 0, loc.ty)
         if isinstance(loc, tuple) and loc[0] == 'arr':
-            raise Unsupported('address of local array element')
+            return PtrV(Region('global', 'table element', None), 0,
+                        n.get('ty', 'void'))
         raise Unsupported('address-of %r' % (loc,))
 
     def load_through(self, p, st, n):
@@ -1049,6 +1130,12 @@ class Executor:
                         extra={'ctype': r.ty})
             return
         if t.base == 'char':
+            return
+        if t.base == 'long' and not self.cfg.get('check_long_overflow'):
+            # 64-bit arithmetic: index/size expressions cannot reach 2^63 for
+            # objects that fit in memory, and element arithmetic on 'i'
+            # matrices is value-level (not claimed); only 32-bit int
+            # arithmetic, narrowing casts and size_t products are checked
             return
         lo, hi = t.rng()
         self.oblige(st, 'nooverflow', z3.And(r.t >= lo, r.t <= hi), n,
@@ -1365,7 +1452,15 @@ class Executor:
             v = st.vars.get(loc.key)
             if isinstance(v, ArrV):
                 return v
+            if isinstance(loc.key, tuple) and loc.key[0] == 'global':
+                h = self.externs.get('global:' + loc.name)
+                if h:
+                    return h(self, st, a)
             return self.addr_of(a, st)
+        if isinstance(loc, LObjField):
+            return self.read_objfield(loc, st, a)
+        if isinstance(loc, tuple) and loc[0] == 'arr':
+            return self.read(loc, st, a)
         raise Unsupported('array decay of %r' % (loc,))
 
     def retype_ptr(self, v, ty):
@@ -1407,6 +1502,14 @@ class Executor:
                     return 'cvxopt_API[%s]' % i['value']
             if g['kind'] == 'DeclRefExpr':
                 return g.get('ref')
+        if f['kind'] == 'ArraySubscriptExpr':
+            b = f['inner'][0]
+            while b['kind'] in ('ImplicitCastExpr', 'ParenExpr'):
+                b = b['inner'][0]
+            if b['kind'] == 'DeclRefExpr':
+                return b.get('ref') + '[]'
+        if f['kind'] == 'MemberExpr':
+            return '.' + f.get('name', '?')
         return None
 
     def ev_CallExpr(self, n, st):
@@ -1421,6 +1524,11 @@ class Executor:
                 raise Unsupported('indirect call (line %s)' % n.get('line'))
         h = self.externs.get(name)
         if h is not None:
+            if name.endswith('[]'):
+                g = f
+                while g['kind'] in ('ImplicitCastExpr', 'ParenExpr'):
+                    g = g['inner'][0]
+                return h(self, st, n, [g['inner'][1]] + list(args))
             return h(self, st, n, args)
         if name in self.tu['funcs'] and name in self.cfg.get('inline', ()):
             return self.inline_call(name, n, args, st)
@@ -1446,6 +1554,11 @@ class Executor:
         return self.finished
 
     def finish(self, o):
+        if o.kind == 'abandoned':
+            # keep the obligations generated before the unsupported construct
+            self.orphans = getattr(self, 'orphans', [])
+            self.orphans.extend(o.st.obligs)
+            return
         self.finished.append((o.st, o.kind, o.val))
 
     def exec_block(self, stmts, st):
@@ -1471,6 +1584,13 @@ class Executor:
         try:
             st1 = st.copy()
             return self.exec_stmt1(s, st1)
+        except Unsupported as u:
+            allow = self.cfg.get('allow_unsupported')
+            if allow and any(a in str(u) for a in allow):
+                self.abandoned = getattr(self, 'abandoned', [])
+                self.abandoned.append((s.get('line'), str(u)))
+                return [Outcome('abandoned', st)]
+            raise
         except NeedFork as nf:
             outs = []
             for c in (nf.cond, z3.Not(nf.cond)):
@@ -1677,11 +1797,167 @@ class Executor:
 
     def exec_loop(self, s, st):
         h = self.cfg.get('loop_handler')
-        if h is None:
-            raise Unsupported('loop at line %s (no invariant supplied)' %
-                              s.get('line'))
-        return h(self, s, st)
+        if h is not None:
+            r = h(self, s, st)
+            if r is not None:
+                return r
+        return self.default_loop(s, st)
+
+    def assigned_in(self, node, out):
+        k = node.get('kind')
+        if k in ('BinaryOperator', 'CompoundAssignOperator') and (
+                k == 'CompoundAssignOperator' or node.get('opcode') == '='):
+            self.lhs_vars(node['inner'][0], out)
+        if k == 'UnaryOperator' and node.get('opcode') in ('++', '--'):
+            self.lhs_vars(node['inner'][0], out)
+        if k == 'UnaryOperator' and node.get('opcode') == '&':
+            # address taken: the callee may write through it
+            self.lhs_vars(node['inner'][0], out)
+        for c in node.get('inner', []) or []:
+            if isinstance(c, dict):
+                self.assigned_in(c, out)
+
+    def lhs_vars(self, n, out):
+        while n.get('kind') in ('ParenExpr', 'ImplicitCastExpr'):
+            n = n['inner'][0]
+        if n.get('kind') == 'DeclRefExpr' and n.get('refkind') in (
+                'VarDecl', 'ParmVarDecl'):
+            out[n['refid']] = (n['ref'], n['ty'])
+        elif n.get('kind') == 'MemberExpr' and not n.get('isArrow'):
+            self.lhs_vars(n['inner'][0], out)
+
+    def default_loop(self, s, st):
+        """Invariant rule with the automatic invariant of counting loops:
+        for (i = a; i < b; i++) whose bound is not assigned in the body gets
+        a <= i (and i < b in the body, i >= b at exit).  Everything assigned
+        in the loop is havoced.  No termination claim."""
+        kind = s['kind']
+        inner = s['inner']
+        if kind == 'ForStmt':
+            init, cond, inc, body = inner[0], inner[2], inner[3], inner[4]
+        elif kind == 'WhileStmt':
+            init, cond, inc, body = None, inner[-2], None, inner[-1]
+        else:
+            raise Unsupported('do-while loop at line %s' % s.get('line'))
+        if init is not None and init.get('kind') != 'NullStmt':
+            outs = self.exec_stmt(init, st)
+            if len(outs) != 1 or outs[0].kind != 'fall':
+                raise Unsupported('loop initialiser with control flow')
+            st = outs[0].st
+        assigned = {}
+        self.assigned_in(body, assigned)
+        if inc is not None:
+            self.assigned_in(inc, assigned)
+        # counting-loop detection
+        lows = {}
+        for rid, (nm, ty) in assigned.items():
+            v = st.vars.get(rid)
+            if isinstance(v, IntV) and inc is not None and \
+                    self.is_increment_of(inc, rid):
+                body_assigned = {}
+                self.assigned_in(body, body_assigned)
+                if rid not in body_assigned:
+                    lows[rid] = v.t
+
+        def havoc(state):
+            for rid, (nm, ty) in assigned.items():
+                if rid in state.vars:
+                    old = state.vars[rid]
+                    if isinstance(old, (IntV, BoolV)):
+                        nv = self.fresh_int('loop_' + nm, CT(ty).s if CT(
+                            ty).s in ('int', 'long', 'char') else
+                            TYPEDEF_INT.get(CT(ty).s, 'int'))
+                        state.vars[rid] = IntV(nv.t, ty)
+                        if rid in lows:
+                            state.pc.append(nv.t >= lows[rid])
+                    elif isinstance(old, FltV):
+                        state.vars[rid] = FltV(self.fresh_real(
+                            'loop_' + nm), old.ty)
+                    elif isinstance(old, StructV):
+                        state.vars[rid] = StructV(old.ty)
+                    elif isinstance(old, PtrV):
+                        state.vars[rid] = PtrV(old.region, self.fresh_int(
+                            'loop_off_' + nm, 'long').t, old.ty, old.null,
+                            old.obj)
+        results = []
+        # arbitrary iteration
+        b = st.copy()
+        havoc(b)
+        c = tobool(self.ev(cond, b)) if cond.get('kind') != 'NullStmt' \
+            else z3.BoolVal(True)
+        if self.check(b.path(), [c]) != z3.unsat:
+            b.pc.append(c)
+            for o in self.exec_stmt(body, b):
+                if o.kind in ('fall', 'continue'):
+                    # obligations of the iteration are kept; the state is
+                    # summarised by the exit state below
+                    if inc is not None and inc.get('kind') != 'NullStmt':
+                        try:
+                            self.ev(inc, o.st)
+                        except NeedFork:
+                            pass
+                    results.append(Outcome('dropped', o.st))
+                elif o.kind == 'break':
+                    results.append(Outcome('fall', o.st))
+                else:
+                    results.append(o)
+        # exit
+        e = st.copy()
+        havoc(e)
+        ce = tobool(self.ev(cond, e)) if cond.get('kind') != 'NullStmt' \
+            else z3.BoolVal(True)
+        if self.check(e.path(), [z3.Not(ce)]) != z3.unsat:
+            e.pc.append(z3.Not(ce))
+            seen = set(id(o) for o in e.obligs)
+            for r in results:
+                if r.kind == 'dropped':
+                    for ob in r.st.obligs:
+                        if id(ob) not in seen:
+                            seen.add(id(ob))
+                            e.obligs.append(ob)
+                    for cr in r.st.calls:
+                        if cr not in e.calls:
+                            e.calls.append(cr)
+                    for sr in r.st.stores:
+                        if sr not in e.stores:
+                            e.stores.append(sr)
+            results.append(Outcome('fall', e))
+        else:
+            self.orphans = getattr(self, 'orphans', [])
+            for r in results:
+                if r.kind == 'dropped':
+                    self.orphans.extend(r.st.obligs)
+        return [r for r in results if r.kind != 'dropped']
+
+    def is_increment_of(self, inc, rid):
+        n = inc
+        while n.get('kind') in ('ParenExpr',):
+            n = n['inner'][0]
+        if n.get('kind') == 'BinaryOperator' and n.get('opcode') == ',':
+            return any(self.is_increment_of(c, rid) for c in n['inner'])
+        if n.get('kind') == 'UnaryOperator' and n.get('opcode') == '++':
+            t = n['inner'][0]
+            return t.get('kind') == 'DeclRefExpr' and t.get('refid') == rid
+        if n.get('kind') == 'CompoundAssignOperator' and n.get(
+                'opcode') == '+=':
+            t, v = n['inner']
+            if t.get('kind') == 'DeclRefExpr' and t.get('refid') == rid:
+                while v.get('kind') in ('ImplicitCastExpr', 'ParenExpr'):
+                    v = v['inner'][0]
+                return v.get('kind') == 'IntegerLiteral' and int(
+                    v['value']) > 0
+        return False
 
 
 class NeedInline(Exception):
     pass
+
+
+class TupleItems:
+    def __init__(self, obj):
+        self.obj = obj
+
+
+class FieldArr:
+    def __init__(self, obj, name):
+        self.obj, self.name = obj, name
